@@ -28,7 +28,7 @@ EXTRA_TARGETS = ["TopSearch.Model.Parallel", "TopSearch.Gen.HashSites"]
 P = "TopSearch.Props.C14."
 REQUIRED = [P + n for n in ["C14_pool_order", "C14_parallel_merge", "C14_schedule_independent",
                             "C14_failed_skipped", "C14_sites_justified",
-                            "C14_string_set_order_irrelevant"]]
+                            "C14_string_set_order_irrelevant", "C14_parallel_is_roundParallel"]]
 RULE = ("cases = (worker count, delay pattern) runs of the real fork pool / real parallel round compared "
         "with the model fed the observed completion order, and (pipeline, RNG seed, hash seed) interpreter "
         "runs compared by digest; non-trivial = the completion order differs from the task order (or >= 2 "
